@@ -156,7 +156,8 @@ pub fn cases(max_cmds: usize) -> impl Strategy<Value = Case> {
         }),
         6..24,
     );
-    (proggen::prog_spec(24), prop_oneof![3 => mixed, 2 => steppy, 1 => churn], input_bytes()).prop_map(|(spec, cmds, input)| Case { spec, cmds, input })
+    let spec = prop_oneof![5 => proggen::prog_spec(24).boxed(), 1 => proggen::raw_image_spec(super::c03::image_words()).boxed()];
+    (spec, prop_oneof![3 => mixed, 2 => steppy, 1 => churn], input_bytes()).prop_map(|(spec, cmds, input)| Case { spec, cmds, input })
 }
 
 impl Prop for C10 {
@@ -164,7 +165,7 @@ impl Prop for C10 {
         "C10"
     }
     fn rule(&self) -> &'static str {
-        "Histories of 1-12 mixed commands (step-heavy histories of 4-39 commands, and breakpoint-churn histories of 6-23 commands over a handful of addresses) over {step, step into k (k absent, 0, 1, 2, 3, 7, 100, 65535, small), step out, continue, break add/remove at code addresses / labels / PC offsets} on ProgGen programs (loops, nested and recursive subroutines in both conventions, HALT in the middle or at the end, both feature settings), each command followed by `registers`, ended by `exit`. \
+        "Histories of 1-12 mixed commands (step-heavy histories of 4-39 commands, and breakpoint-churn histories of 6-23 commands over a handful of addresses) over {step, step into k (k absent, 0, 1, 2, 3, 7, 100, 65535, small), step out, continue, break add/remove at code addresses / labels / PC offsets} on ProgGen programs and (1 in 6) arbitrary word images written as `.fill` lines (loops, nested and recursive subroutines in both conventions, HALT in the middle or at the end, both feature settings), each command followed by `registers`, ended by `exit`. \
          Oracle: RefDbg on RefVM — after every command R0-R7, PC and CC; after the history the full snapshot (all memory), the number of executed instructions (hook H4) and the program output. `step` over a call whose two readings (first arrival at the following address / the call has returned) disagree cuts the history there (counted as ambiguous). \
          Non-trivial: >= 5 instructions executed in >= 2 resuming commands, including a step over a call, a step on a taken branch / JMP / RET, a step into that is cut short by a pause, or a step out. Distinct = hash(source, script, input)."
     }
@@ -176,7 +177,7 @@ impl Prop for C10 {
         ]
     }
     fn run_worker(&self, ctx: &Ctx, rep: &mut Report) {
-        let n = ctx.share(ctx.tier.pick(12_000, 150_000));
+        let n = ctx.share(ctx.tier.pick(30_000, 300_000));
         drive(ctx, rep, "histories", cases(13), n, &mut |c: &Case| judge_case(c));
     }
     fn replay(&self, _ctx: &Ctx, case: &Value) -> Obs {
